@@ -35,20 +35,22 @@ def copyProp (src : KVs) (srcName dstName : String) (dst : KVs) : KVs :=
 
 /-! ### field types -/
 
+/-- `mappings_node[label].append(value)` (creating the list on first use) -/
+def pushLabel (acc : KVs) (lv : String × Y) : KVs :=
+  kvSet lv.1 (.seq (match kvGet lv.1 acc with | some (.seq l) => l ++ [lv.2] | _ => [lv.2])) acc
+
 /-- enumeration members → mappings (`_conv_enum_ft_node`), `cur` is the auto-incremented value -/
 def convEnumMembers : List Y → Int → KVs → FR KVs
   | [], _, acc => .ok acc
-  | .str label :: r, cur, acc =>
-    convEnumMembers r (cur + 1) (kvSet label (.seq (match kvGet label acc with | some (.seq l) => l ++ [.int cur] | _ => [.int cur])) acc)
+  | .str label :: r, cur, acc => convEnumMembers r (cur + 1) (pushLabel acc (label, .int cur))
   | .map mm :: r, _, acc => do
     let label ← req "label" mm
     let value ← req "value" mm
     match label with
     | .str lb =>
-      let push (v : Y) := kvSet lb (.seq (match kvGet lb acc with | some (.seq l) => l ++ [v] | _ => [v])) acc
       match value with
-      | .int v => convEnumMembers r (v + 1) (push (.int v))
-      | .seq [a, .int b] => convEnumMembers r (b + 1) (push (.seq [a, .int b]))
+      | .int v => convEnumMembers r (v + 1) (pushLabel acc (lb, .int v))
+      | .seq [a, .int b] => convEnumMembers r (b + 1) (pushLabel acc (lb, .seq [a, .int b]))
       | .seq [_, _] => .error (.crash "TypeError: range end + 1")
       | .seq _ => .error (.crash "assert len(v2_value_node) == 2")
       | _ => .error (.crash "assert type(v2_value_node) is list")
@@ -62,6 +64,11 @@ def convIntFt (m : KVs) : KVs :=
   let m3 := renameProp "align" "alignment" m2
   let m4 := renameProp "base" "preferred-display-base" m3
   kvErase "property-mappings" (kvErase "byte-order" (kvErase "encoding" m4))
+
+/-- one structure member: `- name: {field-type: <converted>}` -/
+def convField (rec : Y → FR Y) (nf : String × Y) : FR Y := do
+  let ft3 ← rec nf.2
+  .ok (Y.map [(nf.1, .map [("field-type", ft3)])])
 
 /-- `_conv_ft_node` -/
 def convFt : Nat → Y → FR Y
@@ -108,9 +115,7 @@ def convFt : Nat → Y → FR Y
       | none => .ok (.map b1)
       | some fv => do
         let fm ← asMap "fields" fv
-        let ms ← fm.mapM fun (n, ft) => do
-          let ft3 ← convFt fuel ft
-          .ok (Y.map [(n, .map [("field-type", ft3)])])
+        let ms ← fm.mapM (convField (convFt fuel))
         .ok (.map (kvSet "members" (.seq ms) b1))
     | _ => .error (.crash "assert cls in self._ft_cls_name_to_conv_method")
 
@@ -165,13 +170,10 @@ def fieldsOf (what : String) (ft : Y) : FR KVs := do
   let f ← req "fields" m
   asMap (what ++ " fields") f
 
-def convDst (fuel : Nat) (m : KVs) : FR KVs := do
-  let d0 := copyProp m "$default" "$is-default" []
-  let pct ← req "packet-context-type" m
-  let pc ← fieldsOf "packet-context-type" pct
-  let eh : Option KVs ← match kvGetNN "event-header-type" m with
-    | none => .ok none
-    | some ehv => do let f ← fieldsOf "event-header-type" ehv; .ok (some f)
+/-- default clock type of a data stream type: the clock the event record `timestamp` member is mapped to,
+    else the one of `timestamp_begin`, else the one of `timestamp_end`; `timestamp_begin`/`timestamp_end`
+    mapped to different clocks is a configuration error -/
+def defaultClock (pc : KVs) (eh : Option KVs) : FR (Option Y) := do
   let tsb ← clkNameOf (kvGet "timestamp_begin" pc)
   let tse ← clkNameOf (kvGet "timestamp_end" pc)
   match tsb, tse with
@@ -180,13 +182,15 @@ def convDst (fuel : Nat) (m : KVs) : FR KVs := do
   let defClk0 ← match eh with
     | some ehf => clkNameOf (kvGet "timestamp" ehf)
     | none => .ok none
-  let defClk := match defClk0 with
+  .ok (match defClk0 with
     | some c => some c
     | none => match tsb with
       | some c => some c
-      | none => tse
-  let d1 := match defClk with | some c => kvSet "$default-clock-type-name" c d0 | none => d0
-  -- features
+      | none => tse)
+
+/-- `v3_features_node_from_v2_ft_nodes`: a feature is enabled (with the converted field type) exactly when
+    the reserved member exists; the two sizes are mandatory -/
+def dstFeatures (fuel : Nat) (pc : KVs) (eh : Option KVs) : FR Y := do
   let psz ← req "packet_size" pc
   let total ← convFt fuel psz
   let csz ← req "content_size" pc
@@ -194,18 +198,33 @@ def convDst (fuel : Nat) (m : KVs) : FR KVs := do
   let beg ← convFtIfExists fuel (some pc) "timestamp_begin"
   let end_ ← convFtIfExists fuel (some pc) "timestamp_end"
   let disc ← convFtIfExists fuel (some pc) "events_discarded"
+  let seq ← convFtIfExists fuel (some pc) "packet_seq_num"
   let ehf := eh.getD []
   let tid ← convFtIfExists fuel (some ehf) "id"
   let ts ← convFtIfExists fuel (some ehf) "timestamp"
-  let pkt : KVs := setFeature "discarded-event-records-counter-snapshot-field-type" disc
+  let pkt : KVs := setFeature "sequence-number-field-type" seq
+    (setFeature "discarded-event-records-counter-snapshot-field-type" disc
     (setFeature "end-timestamp-field-type" end_ (setFeature "beginning-timestamp-field-type" beg
-      [("total-size-field-type", total), ("content-size-field-type", content)]))
+      [("total-size-field-type", total), ("content-size-field-type", content)])))
   let er : KVs := setFeature "timestamp-field-type" ts (setFeature "type-id-field-type" tid [])
-  let d2 := kvSet "$features" (.map [("packet", .map pkt), ("event-record", .map er)]) d1
-  -- extra packet context members
-  let extra ← (pc.filter fun kv => !ctfMemberNames.contains kv.1).mapM fun (n, ft) => do
-    let ft3 ← convFt fuel ft
-    .ok (Y.map [(n, .map [("field-type", ft3)])])
+  .ok (.map [("packet", .map pkt), ("event-record", .map er)])
+
+/-- the members of the packet context type that are not reserved names become extra members, in order -/
+def extraMembers (fuel : Nat) (pc : KVs) : FR (List Y) :=
+  (pc.filter fun kv => !ctfMemberNames.contains kv.1).mapM (convField (convFt fuel))
+
+def convDst (fuel : Nat) (m : KVs) : FR KVs := do
+  let d0 := copyProp m "$default" "$is-default" []
+  let pct ← req "packet-context-type" m
+  let pc ← fieldsOf "packet-context-type" pct
+  let eh : Option KVs ← match kvGetNN "event-header-type" m with
+    | none => .ok none
+    | some ehv => do let f ← fieldsOf "event-header-type" ehv; .ok (some f)
+  let defClk ← defaultClock pc eh
+  let d1 := match defClk with | some c => kvSet "$default-clock-type-name" c d0 | none => d0
+  let feats ← dstFeatures fuel pc eh
+  let d2 := kvSet "$features" feats d1
+  let extra ← extraMembers fuel pc
   let d3 := if extra.isEmpty then d2 else kvSet "packet-context-field-type-extra-members" (.seq extra) d2
   let d4 ← match kvGetNN "event-context-type" m with
     | some ft => do let r ← convFt fuel ft; .ok (kvSet "event-record-common-context-field-type" r d3)
